@@ -255,14 +255,14 @@ func RunParent(ch *Check, tier string, seed int64) int {
 
 	// ---- evidence
 	cov := map[string]any{
-		"evaluations":         total.Evaluations,
-		"distinct_nontrivial": total.Nontrivial,
-		"rule":                ch.Rule,
-		"samples":             total.Samples,
-		"exhaustive":          total.Exhaustive,
-		"bounds":              total.Bounds,
-		"unreproducible":      unrepro,
-		"workers":             n,
+		"evaluations":                total.Evaluations,
+		"distinct_nontrivial":        total.Nontrivial,
+		"rule":                       ch.Rule,
+		"samples":                    total.Samples,
+		"exhaustive":                 total.Exhaustive,
+		"bounds":                     total.Bounds,
+		"unreproducible":             unrepro,
+		"workers":                    n,
 		"failing_cases_by_signature": total.FailureCount,
 		"failing_cases_by_bucket":    total.BucketCount,
 	}
